@@ -49,7 +49,12 @@ def run(ctx):
         cmd = ['taskset', '-c', ','.join(map(str, cpus)), exe, '-mode', 'runs', '-seed', str(ctx.seed * 16 + g),
                '-n', str(per[min(g, len(per) - 1)]), '-cap', str(len(cpus)), '-python', sys.executable, '-tool', TOOL,
                '-out', out, '-tier', ctx.tier]
-        groups.append((out, len(cpus), subprocess.Popen(cmd, stdout=subprocess.PIPE, stderr=subprocess.STDOUT, text=True)))
+        env = dict(os.environ)
+        if g == 0:
+            # the bound is the number of CPUs of the machine (here: of the taskset), not the number of
+            # OS threads the Go scheduler may use: run the smallest set with GOMAXPROCS four times larger
+            env['GOMAXPROCS'] = str(4 * len(cpus))
+        groups.append((out, len(cpus), subprocess.Popen(cmd, stdout=subprocess.PIPE, stderr=subprocess.STDOUT, text=True, env=env)))
     pout = os.path.join(ctx.out, 'pure')
     os.makedirs(pout, exist_ok=True)
     pure = subprocess.Popen([exe, '-mode', 'pure', '-seed', str(ctx.seed), '-n', '300' if not thorough else '3000',
@@ -127,5 +132,8 @@ def replay(path):
         if cap and cap < len(av):
             cmd = ['taskset', '-c', ','.join(map(str, av[:cap]))] + cmd
     except Exception:
-        pass
-    return subprocess.call(cmd)
+        cap = None
+    env = dict(os.environ)
+    if cap and cap <= 2:
+        env['GOMAXPROCS'] = str(4 * cap)    # as in the run (group 0)
+    return subprocess.call(cmd, env=env)
